@@ -129,7 +129,7 @@ Proof.
   revert s. assert (G : forall evs s0 s, areach false R s0 -> replay (adt_tr R res) s0 evs = Some s -> areach false R s).
   { induction evs0 as [|e evs0 IH]; intros s0 s Hr H; simpl in H; [now inv H|].
     destruct (adt_tr R res s0 e) as [s1|] eqn:E; [|discriminate]. eapply IH; [|exact H].
-    clear H IH. destruct e as [t|t|t v|t v]; unfold adt_tr in E.
+    clear H IH. destruct e as [t|t|t v|t v|t]; unfold adt_tr in E; [| | | |discriminate].
     - eapply areach_step; eauto.
     - eapply areach_steps; eauto.
     - eapply areach_steps; eauto.
